@@ -350,6 +350,9 @@ func (g *genState) compatible(p Label, structForm bool) Label {
 	if IsIface(p.Type) {
 		im := Implementors(p.Type)
 		s = Label{Type: im[r.Intn(len(im))]}
+		if (p.Type == IfaceBase || p.Type == IfaceBase+1) && r.Chance(1, 6) {
+			return Label{Type: IfaceWide} // declared as a wider interface that implements this one
+		}
 		if p.Name != "" && p.Sub == "" && structForm && r.Chance(1, 3) {
 			s.Name = p.Name // a same-named value of an implementing type
 			if g.cfg.Subs && r.Chance(1, 3) {
